@@ -2,7 +2,8 @@
    derives from it (GenBank: GetPositions + codon_start; GFF3: CDSRegion2fromGFF rows + phase).
    The text parsers themselves are modelled by this AST level only (exercised by rendering the AST
    to text and parsing it with the real code). *)
-From GF Require Import Base Alphabet SymbolsDef FastaModel CodonModel.
+From Coq Require Import Permutation.
+From GF Require Import Base Alphabet SymbolsDef FastaModel CodonModel TopK.
 Open Scope nat_scope.
 
 Record feat := { f_name : list N; f_rev : bool; f_segs : list (nat * nat); f_cstart : nat }.  (* segments in the order the annotation lists them: ascending, or not - a gene that spans the origin of a circular genome is join(40..50,1..10); codon_start 1..3 *)
@@ -17,10 +18,16 @@ Definition gb_positions_form0 (f : feat) : list nat :=
   skipn (f_cstart f - 1) (if f_rev f then rev (concat (map range (f_segs f))) else concat (map range (f_segs f))).
 Definition gb_positions_form1 (f : feat) : list nat :=
   skipn (f_cstart f - 1) (if f_rev f then concat (map rrange (rev (f_segs f))) else concat (map range (f_segs f))).
-(* GFF3: one row per segment in file (= listed) order; forward: rows first to last, each ascending; reverse: rows
-   last to first, each descending; the phase of the first row in translation order (= codon_start-1) is dropped *)
+(* GFF3: one row per segment, listed in ANY order in the file: the rows of one ID are first put in coordinate order (repair
+   D15; stable sort by start, as sort.SliceStable); forward: rows first to last, each ascending; reverse: rows last to
+   first, each descending; the phase of the first row in translation order (= codon_start-1) is dropped *)
+Definition seg_lt (a b : nat * nat) : bool := Nat.ltb (fst a) (fst b).
+Definition sort_segs (l : list (nat * nat)) : list (nat * nat) := ssort (nat * nat) seg_lt l.
 Definition gff_positions (f : feat) : list nat :=
-  skipn (f_cstart f - 1) (if f_rev f then concat (map rrange (rev (f_segs f))) else concat (map range (f_segs f))).
+  let segs := sort_segs (f_segs f) in
+  skipn (f_cstart f - 1) (if f_rev f then concat (map rrange (rev segs)) else concat (map range segs)).
+(* the annotation lists the segments of the feature in ascending order (every layout but an origin-spanning join) *)
+Definition segs_ascending (l : list (nat * nat)) : Prop := sorted (nat * nat) seg_lt l.
 
 (* the translation the GFF path computes from the reference; the GenBank path reads it from /translation (+ "*") *)
 Definition feature_bases (genome : list N) (ps : list nat) : list N := map (fun p => nth (p - 1) genome 0%N) ps.
@@ -34,11 +41,47 @@ Proof.
   cbn [map concat]. rewrite app_nil_r. reflexivity.
 Qed.
 
-(* the three code paths give the same ordered position list for every feature *)
-Theorem positions_gb_eq_gff f : gb_positions_form0 f = gff_positions f /\ gb_positions_form1 f = gff_positions f.
+Lemma seg_lt_irrefl x : seg_lt x x = false. Proof. apply Nat.ltb_irrefl. Qed.
+Lemma seg_lt_trans x y z : seg_lt x y = true -> seg_lt y z = true -> seg_lt x z = true.
+Proof. unfold seg_lt. rewrite !Nat.ltb_lt. lia. Qed.
+
+(* the three code paths give the same ordered position list for every feature whose segments are listed in ascending order *)
+Theorem positions_gb_eq_gff f : segs_ascending (f_segs f) ->
+  gb_positions_form0 f = gff_positions f /\ gb_positions_form1 f = gff_positions f.
 Proof.
-  unfold gb_positions_form0, gb_positions_form1, gff_positions. split; [|reflexivity].
+  intros Hs. unfold gb_positions_form0, gb_positions_form1, gff_positions, sort_segs.
+  rewrite (ssort_of_sorted _ _ (f_segs f) Hs). split; [|reflexivity].
   destruct (f_rev f); [|reflexivity]. rewrite rev_concat, <- map_rev, map_map. reflexivity.
+Qed.
+
+(* GFF3: the order in which the rows of one feature are listed is irrelevant (rows with distinct starts) *)
+Lemma sorted_perm_unique (l : list (nat * nat)) : forall l', sorted (nat * nat) seg_lt l -> sorted (nat * nat) seg_lt l' ->
+  Permutation l l' -> NoDup (map fst l) -> l = l'.
+Proof.
+  induction l as [|x t IH]; intros l' Hs Hs' HP Hn.
+  - apply Permutation_nil in HP. subst. reflexivity.
+  - destruct l' as [|y t']; [apply Permutation_sym, Permutation_nil in HP; discriminate|].
+    cbn [sorted] in Hs, Hs'. destruct Hs as [Hx Hst], Hs' as [Hy Hst'].
+    cbn [map] in Hn. inversion Hn as [|? ? Hnx Hnt]; subst.
+    assert (E : x = y).
+    { assert (Hxin : In x (y :: t')) by (apply (Permutation_in _ HP); left; reflexivity).
+      assert (Hyin : In y (x :: t)) by (apply (Permutation_in _ (Permutation_sym HP)); left; reflexivity).
+      destruct Hxin as [->|Hxin]; [reflexivity|]. destruct Hyin as [->|Hyin]; [reflexivity|].
+      specialize (Hy x Hxin). specialize (Hx y Hyin). unfold seg_lt in Hx, Hy. apply Nat.ltb_ge in Hx, Hy.
+      exfalso. apply Hnx. replace (fst x) with (fst y) by lia. apply in_map. exact Hyin. }
+    subst y. f_equal. apply IH; [exact Hst|exact Hst'|exact (Permutation_cons_inv HP)|exact Hnt].
+Qed.
+Theorem gff_row_order_irrelevant f f' : Permutation (f_segs f) (f_segs f') -> NoDup (map fst (f_segs f)) ->
+  f_rev f = f_rev f' -> f_cstart f = f_cstart f' -> gff_positions f = gff_positions f'.
+Proof.
+  intros HP Hn Hr Hc. unfold gff_positions. rewrite <- Hr, <- Hc.
+  assert (E : sort_segs (f_segs f) = sort_segs (f_segs f')).
+  { unfold sort_segs. apply sorted_perm_unique.
+    - apply ssort_sorted; [exact seg_lt_irrefl|exact seg_lt_trans].
+    - apply ssort_sorted; [exact seg_lt_irrefl|exact seg_lt_trans].
+    - eapply Permutation_trans; [apply ssort_perm|]. eapply Permutation_trans; [exact HP|]. apply Permutation_sym, ssort_perm.
+    - apply (Permutation_NoDup (l := map fst (f_segs f))); [|exact Hn]. apply Permutation_map, Permutation_sym, ssort_perm. }
+  rewrite E. reflexivity.
 Qed.
 
 (* ---- the region record each path hands to the caller (name, strand, ordered positions, one residue per codon) ---- *)
@@ -53,20 +96,21 @@ Definition region_gb (form1 : bool) (f : feat) (translation : list N) : aregion 
 
 (* a consistent annotation (the GenBank /translation is what the CDS translates to, stop excluded) gives the SAME region
    on both paths, in either GenBank spelling of a reverse-strand join *)
-Theorem regions_gb_eq_gff genome f translation form1 :
+Theorem regions_gb_eq_gff genome f translation form1 : segs_ascending (f_segs f) ->
   gff_translation genome f = Ok (translation ++ [42%N]) -> region_gff genome f = Ok (region_gb form1 f translation).
 Proof.
-  intros H. unfold region_gff, region_gb. rewrite H. cbn [bind]. destruct (positions_gb_eq_gff f) as [E0 E1].
+  intros Hs H. unfold region_gff, region_gb. rewrite H. cbn [bind]. destruct (positions_gb_eq_gff f Hs) as [E0 E1].
   destruct form1; [rewrite E1|rewrite E0]; reflexivity.
 Qed.
 (* and so does every list of features: the two descriptions hand identical inputs to the variant caller *)
-Theorem region_lists_gb_eq_gff genome fs : forall trs forms, length trs = length fs -> length forms = length fs ->
+Theorem region_lists_gb_eq_gff genome fs : Forall (fun f => segs_ascending (f_segs f)) fs ->
+  forall trs forms, length trs = length fs -> length forms = length fs ->
   (forall k, k < length fs -> gff_translation genome (nth k fs {| f_name := []; f_rev := false; f_segs := []; f_cstart := 1 |}) = Ok (nth k trs [] ++ [42%N])) ->
   map (region_gff genome) fs = map (@Ok aregion) (map (fun x => region_gb (fst (fst x)) (snd (fst x)) (snd x)) (combine (combine forms fs) trs)).
 Proof.
-  induction fs as [|f t IH]; intros [|tr trs] [|fm forms] Hl1 Hl2 H; try discriminate; [reflexivity|].
+  intros Hasc. induction Hasc as [|f t Hf Ht IH]; intros [|tr trs] [|fm forms] Hl1 Hl2 H; try discriminate; [reflexivity|].
   cbn [map combine fst snd]. f_equal.
-  - apply regions_gb_eq_gff. apply (H 0). cbn. lia.
+  - apply regions_gb_eq_gff; [exact Hf|]. apply (H 0). cbn. lia.
   - apply IH; [cbn in Hl1; lia|cbn in Hl2; lia|]. intros k Hk. apply (H (S k)). cbn. lia.
 Qed.
 
